@@ -36,16 +36,76 @@ Fixpoint doc_fields (d : document) : Z :=
 Fixpoint doc_depth (d : document) : Z :=
   match d with [] => 0%Z | x :: r => Z.max (selset_depth (def_sels x)) (doc_depth r) end.
 
+(* ---- the real depth of an operation counts fragments where they are spread ----
+   cumulative depth of the document: the sum of the depths of its definitions *)
+Fixpoint depth_sum (d : document) : Z :=
+  match d with [] => 0%Z | x :: r => (selset_depth (def_sels x) + depth_sum r)%Z end.
+
+Fixpoint doc_frags (d : document) : list fragment :=
+  match d with [] => [] | DFrag f :: r => f :: doc_frags r | DOp _ :: r => doc_frags r end.
+(* the first fragment of that name, and the list without it *)
+Fixpoint take_frag (n : name) (l : list fragment) : option (fragment * list fragment) :=
+  match l with
+  | [] => None
+  | f :: r =>
+    if bytes_eqb n (fr_name f) then Some (f, r)
+    else match take_frag n r with Some (g, r') => Some (g, f :: r') | None => None end
+  end.
+
+(* deepest selection-set nesting below the selections [sels] once fragment spreads are replaced by the
+   selections of the fragment they name.  [avail] are the fragments that may still be expanded on this
+   path: a fragment is expanded at most once per path, so fragment cycles (invalid GraphQL) are cut where
+   a name repeats, and [fuel = length avail] always suffices. *)
+Fixpoint below_inlined (fuel : nat) (avail : list fragment) (sels : list selection) {struct fuel} : Z :=
+  let fix sub (s : selection) : Z :=
+    match s with
+    | SField _ _ _ _ ss | SInline _ _ ss =>
+      match ss with
+      | [] => 0
+      | _ => 1 + (fix go (l : list selection) : Z := match l with [] => 0 | x :: r => Z.max (sub x) (go r) end) ss
+      end
+    | SSpread fr _ =>
+      match fuel with
+      | O => 0
+      | S f =>
+        match take_frag fr avail with
+        | Some (fg, avail') => below_inlined f avail' (fr_sels fg)
+        | None => 0
+        end
+      end
+    end in
+  (fix go (l : list selection) : Z := match l with [] => 0 | x :: r => Z.max (sub x) (go r) end) sels.
+
+Definition depth_inlined (d : document) (o : operation) : Z :=
+  match op_sels o with
+  | [] => 0
+  | _ => 1 + below_inlined (length (doc_frags d)) (doc_frags d) (op_sels o)
+  end.
+Fixpoint max_depth_inlined (d : document) (defs : list definition) : Z :=
+  match defs with
+  | [] => 0
+  | DOp o :: r => Z.max (depth_inlined d o) (max_depth_inlined d r)
+  | DFrag _ :: r => max_depth_inlined d r
+  end.
+
 (* "a document whose real selection depth or field count exceeds a limit" (a limit of 0 or less is off) *)
 Definition exceeds (L F : Z) (d : document) : Prop :=
   (0 < L /\ L < doc_depth d)%Z \/ (0 < F /\ F < doc_fields d)%Z.
 Definition exceeds_b (L F : Z) (d : document) : bool :=
   ((0 <? L) && (L <? doc_depth d))%Z || ((0 <? F) && (F <? doc_fields d))%Z.
 
+(* the cumulative reading: the limit bounds the sum of the depths of all definitions, which bounds the
+   depth of every operation with its fragments spread ([depth_inlined_le_sum]); the field limit is for the
+   whole document *)
+Definition exceeds_cum (L F : Z) (d : document) : Prop :=
+  (0 < L /\ L < depth_sum d)%Z \/ (0 < F /\ F < doc_fields d)%Z.
+Definition exceeds_cum_b (L F : Z) (d : document) : bool :=
+  ((0 <? L) && (L <? depth_sum d))%Z || ((0 <? F) && (F <? doc_fields d))%Z.
+
 (* checker evaluated on the implementation's verdict: [accepted] = ParseWithLimits returned no
    limit error for a document that parses to [d] *)
 Definition limits_ok_b (L F : Z) (d : document) (accepted : bool) : bool :=
-  if exceeds_b L F d then negb accepted else true.
+  if exceeds_cum_b L F d then negb accepted else true.
 
 (* ---- token ranges (evaluated on the implementation's token stream) ---- *)
 Close Scope Z_scope.
